@@ -261,6 +261,17 @@ type Runner struct {
 	// with Tendermint's own UpdateWithChangeSet (oracle for "can be applied", C05)
 	TM   *tmtypes.ValidatorSet
 	Tick int64 // current block time in ticks
+	// what a crash rolls the environment back to (taken at every Commit): header, block time,
+	// Tendermint's validator set, the transactions that exist as far as the chain is concerned
+	cp struct {
+		ok        bool
+		hdr       abci.Header
+		tick      int64
+		tm        *tmtypes.ValidatorSet
+		entropy   int64
+		built     int
+		delivered int
+	}
 }
 
 func NewRunner(c Cfg) (*Runner, error) {
@@ -270,6 +281,9 @@ func NewRunner(c Cfg) (*Runner, error) {
 	}
 	return &Runner{A: a, Entropy: 1}, nil
 }
+
+// CanCrash: something has been committed that a reopened node can come back with.
+func (r *Runner) CanCrash() bool { return r.cp.ok }
 
 func recoverHalt(res *Result) {
 	if r := recover(); r != nil {
@@ -295,9 +309,11 @@ func (r *Runner) txBytes(act Action) []byte {
 	}
 	if act.A != "Tx" {
 		r.ROEntropy--
+		r.A.OutSel = -r.ROEntropy
 		return r.A.BuildTx(act, r.ROEntropy)
 	}
 	r.Entropy++
+	r.A.OutSel = r.Entropy
 	bz := r.A.BuildTx(act, r.Entropy)
 	r.Built = append(r.Built, bz)
 	if act.Kind != "garbage" {
@@ -428,6 +444,7 @@ func (r *Runner) Exec(act Action) (res Result) {
 		res.Code, res.Log = out.Code, trim(out.Log)
 		res.Value = hex.EncodeToString(out.Value)
 	case "ExtAward":
+		a.OutSel = r.Entropy + act.Amt
 		a.PK.AwardCoinsTo(a.Ctx(), sdk.NewInt(act.Amt), a.Addr(act.To))
 	case "ExtBurn":
 		den := act.Den
@@ -450,6 +467,29 @@ func (r *Runner) Exec(act Action) (res Result) {
 			a.RPC.Add(h)
 		}
 		a.Pending = nil
+		r.cp.ok, r.cp.hdr, r.cp.tick, r.cp.entropy, r.cp.built, r.cp.delivered = true, a.Hdr, r.Tick, r.Entropy, len(r.Built), len(r.Delivered)
+		r.cp.tm = nil
+		if r.TM != nil {
+			r.cp.tm = r.TM.Copy()
+		}
+	case "Crash":
+		// the process dies here (nothing is flushed, nothing is closed) and is started again on the same
+		// database; Tendermint hands it the block after the last committed one again
+		if !r.cp.ok {
+			panic("Crash before the first Commit is not offered by the specification")
+		}
+		na, err := New(a.Cfg, a.DB, a.RPC)
+		if err != nil {
+			panic(err)
+		}
+		na.Hdr = r.cp.hdr
+		r.A = na
+		r.Tick, r.Entropy = r.cp.tick, r.cp.entropy
+		r.Built, r.Delivered = r.Built[:r.cp.built], r.Delivered[:r.cp.delivered]
+		r.TM = nil
+		if r.cp.tm != nil {
+			r.TM = r.cp.tm.Copy()
+		}
 	case "ExportImport":
 		// stop this chain after a Commit, export its state, start a NEW chain (fresh database, height 0)
 		// from the export; the genesis time is the current block time
@@ -462,6 +502,7 @@ func (r *Runner) Exec(act Action) (res Result) {
 		na.GenTime = r.Tick
 		r.A = na
 		r.TM = nil
+		r.cp.ok = false
 		out := na.InitChain()
 		res.Updates, res.UpdDup = na.updates(out.Validators)
 		res.Events = evDigest(res.Updates)
